@@ -529,14 +529,20 @@ Proof.
 Qed.
 
 (* ------------------------------------------------------------------------------------ *)
-(* Witness: with max * rate > 1h the clean-up re-grants a burst                            *)
+(* bucketMaxAge() makes the side condition of the clean-up lemmas hold for every configuration *)
+Lemma age_ok cfg : lmax cfg * lrate cfg <= cleanup_age cfg.
+Proof. unfold cleanup_age. lia. Qed.
 
+(* Witness kept for the record: with the former fixed one-hour cut-off (max * rate > 1h) the
+   clean-up re-granted a burst; [old_cleanup] is that former behaviour. *)
+Definition old_cleanup (st : lstate) : lstate :=
+  {| lnow := lnow st;
+     lbuckets := amap (fun _ ob => match ob with
+                                   | Some b => if last b <? lnow st - hour then None else Some b
+                                   | None => None end) (lbuckets st) |}.
 Definition refute_cfg : lcfg := {| lmax := 2; lrate := 7200 * 1000000000 |}.
-Definition refute_ops : list lop :=
-  [LAllow 1; LAllow 1; LAllow 1; LAdvance (70 * 60 * 1000000000); LCleanup;
-   LAdvance (60 * 1000000000); LAllow 1; LAllow 1; LAllow 1].
-
-Lemma refute_admitted :
-  admitted 1 (snd (lrun refute_cfg (linit 0) refute_ops)) = 4
-  /\ lmax refute_cfg + dur refute_ops / lrate refute_cfg + 1 = 3.
+Lemma old_cleanup_regrants :
+  let st1 := fst (lrun refute_cfg (linit 0) [LAllow 1; LAllow 1; LAdvance (70 * 60 * 1000000000)]) in
+  snd (lrun refute_cfg (old_cleanup st1) [LAdvance (60 * 1000000000); LAllow 1; LAllow 1]) = [(1, true); (1, true)]
+  /\ snd (lrun refute_cfg (cleanup refute_cfg st1) [LAdvance (60 * 1000000000); LAllow 1; LAllow 1]) = [(1, false); (1, false)].
 Proof. vm_compute. split; reflexivity. Qed.
